@@ -659,7 +659,12 @@ def set_const_0(m: types.Model, d: types.Data, restore: bool = True):
 
   smooth.kinematics(m, d)
   smooth.com_pos(m, d)
+  # camera and light references are those of the fixed mode (as mj_setConst): tracking modes read the stale cam_pos0 / light_pos0
+  cam_mode, light_mode = m.cam_mode, m.light_mode
+  m.cam_mode = wp.full(m.ncam, int(types.CamLightType.FIXED), dtype=int)
+  m.light_mode = wp.full(m.nlight, int(types.CamLightType.FIXED), dtype=int)
   smooth.camlight(m, d)
+  m.cam_mode, m.light_mode = cam_mode, light_mode
   smooth.flex(m, d)
   smooth.tendon(m, d)
   smooth.crb(m, d)
